@@ -28,6 +28,16 @@ combiner `f`, over the model of `reduce_node.cpp` in `Model/Reduce.lean`.
 * `rebuild_keeps_leaves`, `removeLeafAt_perm` : a bank swap / rebuild never changes the leaves;
                              swap-remove removes exactly the one leaf.
 * `lifted_tsl_eq_fold`     : the fixed-TSL lifted fast path is the same fold over the valid items.
+
+Strength.  Full for the tree algebra and the structural maintenance (every statement above is for all
+histories / capacities / positions, nothing is bounded).  PARTIAL with respect to the code in one
+respect, which is a limit of the *model*, not an unproved statement: `rootOut` is the value the tree
+holds once every live combiner on a changed leaf-to-root path has been evaluated deepest-first.  Which
+cached combiner outputs the code actually refreshes on a value tick (`prepare_reduce_evaluation_positions`,
+`append_leaf_path`), the re-binding of generic combiner child graphs (`bind_combiner_inputs`) and the
+keyed publication snapshot are not modelled; a fault there is found by the trace monitor of
+`tools/props/c11.py` (mutation "wrong ancestor path for value ticks" is caught that way), not by a
+broken proof.  Memory safety of the two combiner banks is outside any of this.
 -/
 namespace HgVerif.Reduce
 
